@@ -62,6 +62,12 @@ theorem un_ceil (a : F64) : (arith L).un [99, 101, 105, 108] a = F64.ceil a := b
   simp [arith, arithOf, unOf, prim, exactFn, notF]
 theorem un_round (a : F64) : (arith L).un [114, 111, 117, 110, 100] a = roundHalfAway a := by
   simp [arith, arithOf, unOf, prim, exactFn, notF]
+theorem un_log (a : F64) : (arith L).un [108, 111, 103] a = Rare.C11.Log.logAsm a := by
+  simp [arith, arithOf, unOf, prim, exactFn, notF]
+theorem un_log10 (a : F64) : (arith L).un [108, 111, 103, 49, 48] a = Rare.C11.Log.log10 a := by
+  simp [arith, arithOf, unOf, prim, exactFn, notF]
+theorem un_log2 (a : F64) : (arith L).un [108, 111, 103, 50] a = Rare.C11.Log.log2 a := by
+  simp [arith, arithOf, unOf, prim, exactFn, notF]
 
 /-! ### small facts about values -/
 
